@@ -28,6 +28,9 @@ pub enum Ty {
     /// `&v[i]` bound to a local: the element of an opaque vector, seen as its index (opaque method calls on it
     /// get the index as their first argument, exactly as calls on `v[i]` itself)
     IdxRef,
+    /// an abstract object (a file offset, a memory ordering, a mapping handle): a value of the named Coq type
+    /// (a type parameter of the kernel); only passed around
+    Abs(&'static str),
     Unknown,
 }
 
@@ -171,6 +174,20 @@ pub struct Spec {
     /// closure kernel: of the ENCLOSING function), "param#i" = the i-th parameter of the enclosing function,
     /// "closure#i" = the `let` that binds the i-th closure of the function
     pub positions: Vec<(&'static str, &'static str)>,
+    /// when several functions of the name exist (cfg variants): the one whose own / impl attributes contain
+    /// (true) / do not contain (false) the string
+    pub attr_filter: Option<(&'static str, bool)>,
+    /// not a function at all: the INVENTORY of a file - which types implement the given traits and which
+    /// invocations of the given macros exist - as a `list (string * string)` (trait / macro name, type / arguments)
+    pub inventory: Option<(Vec<&'static str>, Vec<&'static str>)>,
+    /// inventory kernels: also the `#[derive(..)]` lists of these structs (row: "derive <Struct>", the list)
+    pub inventory_derives: Vec<&'static str>,
+    /// Coq type of the value of a (non-step) kernel, where it cannot be inferred (a bare `None` / `Err(..)`)
+    pub annot: Option<&'static str>,
+    /// translate only from the first top-level statement whose token string (or `let` initialiser) starts with this
+    pub from: Option<&'static str>,
+    /// always emit the monadic form (a pure kernel would change its TYPE when a `debug_assert!` is added to the source)
+    pub force_monadic: bool,
 }
 
 impl Spec {
@@ -253,7 +270,7 @@ fn base(module: &'static str, group: &'static str, file: &'static str, name: &'s
         recv_groups: vec![], id_methods: vec![], skip_as: vec![], rewrite: vec![], ctors: vec![], argsel: vec![],
         skip_loops: false, ret_wrap: None, note: "",
         type_params: vec![], recv_arg: vec![], break_value: false, loop_cond: false, effects_ret: false, with_locals: vec![],
-        ptr_checked: false, closure_params: vec![], after_loop: None, skip_lets: vec![], iter_fold: None, via: None, positions: vec![],
+        ptr_checked: false, closure_params: vec![], after_loop: None, skip_lets: vec![], iter_fold: None, via: None, positions: vec![], attr_filter: None, inventory: None, inventory_derives: vec![], annot: None, from: None, force_monadic: false,
     }
 }
 
@@ -445,6 +462,129 @@ pub fn table() -> Vec<Spec> {
         t.push(s);
     }
 
+    {
+        // ---- w1c: what an accessor is BUILT from and how it accesses memory.
+        // "view" kernels keep the (pointer, bitmap slice, mapping handle) arguments of the constructor calls: the
+        // handle `self.mmap` / `slice.mmap` is an `option unit` parameter (a literal `None` in its place is
+        // `@None unit`), the bitmap slice an abstract BM (`slice_at` opaque), so that a dropped handle or a bitmap
+        // view at another offset than the pointer changes the generated term.
+        let vfile = "src/volatile_memory.rs";
+        let vk = |name: &'static str, f: &'static str, loc: Loc| base("Accessors", "Accessors", vfile, name, f, loc);
+        let mm = |pat: &'static str, p: &'static str| ext(pat, p, "option unit", opt(Ty::Unit));
+        let bmx = |pat: &'static str, p: &'static str| ext(pat, p, "BM", Ty::Abs("BM"));
+        let slice_at = || ofn("slice_at", "slice_at", "N -> BM", Ty::Abs("BM"));
+        let addr_u = || ex("self . addr as usize", "addr", Ty::Int(64));
+        let addr_p = || ex("self . addr", "addr", Ty::Ptr);
+        let vsl = |f: &'static str| Loc::Impl { ty: "VolatileSlice", tr: None, f };
+        // VolatileSlice::{offset, subslice, split_at}
+        let mut s = vk("vs_offset_view", "offset", vsl("offset"));
+        s.type_params = vec!["BM"];
+        s.extra = vec![addr_u(), addr_p(), ex("self . size", "size", Ty::Int(64)), mm("self . mmap", "mmap")];
+        s.fns = vec![slice_at()];
+        s.ctors = vec![("with_bitmap", vec![0, 2, 3])];
+        s.force_monadic = true;
+        t.push(s);
+        let mut s = vk("vs_subslice_view", "subslice", vsl("subslice"));
+        s.type_params = vec!["BM", "E"];
+        s.extra = vec![addr_p(), mm("self . mmap", "mmap")];
+        s.fns = vec![slice_at(), ofn("compute_end_offset", "compute_end_offset", "N -> N -> rres E", Ty::Res(Box::new(Ty::Abs("E"))))];
+        s.ctors = vec![("with_bitmap", vec![0, 2, 3])];
+        t.push(s);
+        let mut s = vk("vs_split_at_view", "split_at", vsl("split_at"));
+        s.type_params = vec!["BM"];
+        s.extra = vec![addr_u(), addr_p(), ex("self . size", "size", Ty::Int(64)), mm("self . mmap", "mmap"), bmx("self . bitmap . clone ()", "bm")];
+        s.fns = vec![slice_at()];
+        s.ctors = vec![("with_bitmap", vec![0, 2, 3])];
+        s.force_monadic = true;
+        t.push(s);
+        // VolatileMemory::{get_ref, get_array_ref}: the accessor is built from the fields of the slice get_slice returned
+        let slice_fields = || vec![ex("slice . addr", "sl_addr", Ty::Ptr), bmx("slice . bitmap", "sl_bm"), mm("slice . mmap", "sl_mmap"),
+                                   ex("slice . len ()", "sl_len", Ty::Int(64)), ex("size_of :: < T > ()", "size_t", Ty::Int(64))];
+        let get_slice = || ofn("get_slice", "get_slice", "N -> N -> rres unit", Ty::Res(Box::new(Ty::Unit)));
+        let mut s = vk("vm_get_ref_view", "get_ref", Loc::Trait("VolatileMemory", "get_ref"));
+        s.type_params = vec!["BM"];
+        s.extra = slice_fields();
+        s.fns = vec![get_slice()];
+        s.positions = vec![("let#0", "slice")];
+        s.ctors = vec![("with_bitmap", vec![0, 1, 2])];
+        t.push(s);
+        let mut s = vk("vm_get_array_ref_view", "get_array_ref", Loc::Trait("VolatileMemory", "get_array_ref"));
+        s.type_params = vec!["BM"];
+        s.extra = slice_fields();
+        s.fns = vec![get_slice()];
+        s.positions = vec![("let#1", "slice")];
+        s.ctors = vec![("with_bitmap", vec![0, 1, 2, 3])];
+        t.push(s);
+        // get_atomic_ref / aligned_as_ref / aligned_as_mut: the slice has size_of::<T>() bytes and is checked against
+        // align_of::<T>() - both SYMBOLIC (of any other type expression they are unknown functions)
+        for (name, f) in [("vm_get_atomic_ref", "get_atomic_ref"), ("vm_aligned_as_ref", "aligned_as_ref"), ("vm_aligned_as_mut", "aligned_as_mut")] {
+            let mut s = vk(name, f, Loc::Trait("VolatileMemory", f));
+            s.extra = vec![ex("slice . addr", "sl_addr", Ty::Ptr), ex("slice . len ()", "sl_len", Ty::Int(64)),
+                           ex("size_of :: < T > ()", "size_t", Ty::Int(64)), ex("align_of :: < T > ()", "align_t", Ty::Int(64))];
+            s.fns = vec![get_slice(), ofn("check_alignment", "check_alignment", "N -> rres unit", Ty::Res(Box::new(Ty::Unit)))];
+            s.positions = vec![("let#0", "slice")];
+            t.push(s);
+        }
+        // VolatileRef::{store, load, to_slice}: ONE volatile access of the whole Packed<T> (width 0) at the guard's pointer;
+        // store marks (0, len()) afterwards
+        let vr = |f: &'static str| Loc::Impl { ty: "VolatileRef", tr: None, f };
+        for (name, f, guard) in [("vr_store", "store", "self . ptr_guard_mut ()"), ("vr_load", "load", "self . ptr_guard ()")] {
+            let mut s = vk(name, f, vr(f));
+            s.canon_params = vec!["v"];
+            s.drop_params = vec!["v"];
+            s.skip_as = vec![(guard, "guard")];
+            s.extra = vec![ex("guard . as_ptr ()", "guard_ptr", Ty::Ptr), ex("self . len ()", "len", Ty::Int(64))];
+            s.effects = vec!["write_volatile", "read_volatile", "mark_dirty"];
+            s.argsel = vec![("write_volatile", vec![0])];
+            t.push(s);
+        }
+        let mut s = vk("vr_to_slice_view", "to_slice", vr("to_slice"));
+        s.type_params = vec!["BM"];
+        s.extra = vec![ex("self . addr as * mut u8", "addr", Ty::Ptr), ex("size_of :: < T > ()", "size_t", Ty::Int(64)),
+                       bmx("self . bitmap . clone ()", "bm"), mm("self . mmap", "mmap")];
+        s.ctors = vec![("with_bitmap", vec![0, 1, 2, 3])];
+        t.push(s);
+        // VolatileArrayRef::{to_slice (bitmap, handle), ref_at (pointer, bitmap at the same byte offset, handle), load, store,
+        // From<VolatileSlice>}
+        let va = |f: &'static str| Loc::Impl { ty: "VolatileArrayRef", tr: None, f };
+        let mut s = vk("va_to_slice_view", "to_slice", va("to_slice"));
+        s.type_params = vec!["BM"];
+        s.extra = vec![bmx("self . bitmap . clone ()", "bm"), mm("self . mmap", "mmap")];
+        s.ctors = vec![("with_bitmap", vec![2, 3])];
+        t.push(s);
+        let mut s = vk("va_ref_at_view", "ref_at", va("ref_at"));
+        s.type_params = vec!["BM"];
+        s.extra = vec![addr_p(), ex("self . nelem", "nelem", Ty::Int(64)), ex("self . element_size ()", "esz", Ty::Int(64)), mm("self . mmap", "mmap")];
+        s.fns = vec![slice_at()];
+        s.ctors = vec![("with_bitmap", vec![0, 1, 2])];
+        t.push(s);
+        for (name, f) in [("va_load", "load"), ("va_store", "store")] {
+            let mut s = vk(name, f, va(f));
+            s.canon_params = if f == "store" { vec!["index", "value"] } else { vec!["index"] };
+            s.drop_params = vec!["value"];
+            s.effects = vec!["ref_at", f];
+            s.recv_arg = vec![f];
+            s.argsel = vec![("store", vec![])];
+            t.push(s);
+        }
+        // {VolatileSlice, VolatileArrayRef}::copy_to_volatile_slice: count = min(own byte length, slice.size), one copy, mark (0, count)
+        for (name, ty) in [("vs_copy_to_volatile_slice", "VolatileSlice"), ("va_copy_to_volatile_slice", "VolatileArrayRef")] {
+            let mut s = vk(name, "copy_to_volatile_slice", Loc::Impl { ty, tr: None, f: "copy_to_volatile_slice" });
+            s.canon_params = vec!["slice"];
+            s.drop_params = vec!["slice"];
+            s.extra = vec![ex("self . size", "size", Ty::Int(64)), ex("self . len ()", "nelem", Ty::Int(64)), ex("self . element_size ()", "esz", Ty::Int(64)),
+                           ex("slice . size", "slice_size", Ty::Int(64)), ex("self . addr", "addr", Ty::Ptr), ex("slice . addr", "slice_addr", Ty::Ptr)];
+            s.effects = vec!["copy", "mark_dirty"];
+            t.push(s);
+        }
+        let mut s = vk("va_from_slice", "from", Loc::Impl { ty: "VolatileArrayRef", tr: Some("From"), f: "from" });
+        s.type_params = vec!["BM"];
+        s.canon_params = vec!["slice"];
+        s.drop_params = vec!["slice"];
+        s.extra = vec![ex("slice . addr", "sl_addr", Ty::Ptr), ex("slice . len ()", "sl_len", Ty::Int(64)), bmx("slice . bitmap", "sl_bm"), mm("slice . mmap", "sl_mmap")];
+        s.ctors = vec![("with_bitmap", vec![0, 1, 2, 3])];
+        t.push(s);
+    }
     // ------------------------------------------------------------------ src/volatile_memory.rs, mod copy_slice_impl
     {
         let vfile = "src/volatile_memory.rs";
@@ -937,6 +1077,59 @@ pub fn table() -> Vec<Spec> {
             t.push(s);
         }
     }
+    {
+        // ---- w1c: the raw-fd impls hand the SAME buffer to the raw-fd function (no cap, no loop), and which types have them
+        let ifile = "src/io.rs";
+        let mk = |name: &'static str, f: &'static str, loc: Loc, callee: &'static str| {
+            let mut s = base("Io", "IoFd", ifile, name, f, loc);
+            s.canon_params = vec!["buf"];
+            s.param_tys = vec![("buf", Ty::Abs("B"))];
+            s.type_params = vec!["FD", "B", "R"];
+            s.extra = vec![ext("self", "fd", "FD", Ty::Abs("FD"))];
+            s.fns = vec![ofn(callee, "raw_fd_call", "FD -> B -> R", Ty::Unknown)];
+            s
+        };
+        let in_mac = |tr: &'static str, f: &'static str| Loc::InMacro { mac: "impl_read_write_volatile_for_raw_fd", subst: vec![("raw_fd_ty", "RawFdTy")],
+                                                                       inner: Box::new(Loc::Impl { ty: "RawFdTy", tr: Some(tr), f }) };
+        t.push(mk("fd_read_volatile", "read_volatile", in_mac("ReadVolatile", "read_volatile"), "read_volatile_raw_fd"));
+        t.push(mk("fd_write_volatile", "write_volatile", in_mac("WriteVolatile", "write_volatile"), "write_volatile_raw_fd"));
+        t.push(mk("stdout_write_volatile", "write_volatile", Loc::Impl { ty: "Stdout", tr: Some("WriteVolatile"), f: "write_volatile" }, "write_volatile_raw_fd"));
+        let mut s = base("Io", "IoFd", ifile, "io_inventory", "(inventory)", Loc::Free("(inventory)"));
+        s.inventory = Some((vec!["ReadVolatile", "WriteVolatile"], vec!["impl_read_write_volatile_for_raw_fd"]));
+        t.push(s);
+        // the address newtypes compare as their u64: GuestAddress / MemoryRegionAddress DERIVE Eq, PartialEq, Ord, PartialOrd
+        // and no hand-written impl of those traits exists in the file
+        let mut s = base("Guest", "GuestInv", gfile, "address_inventory", "(inventory)", Loc::Free("(inventory)"));
+        s.inventory = Some((vec!["PartialOrd", "Ord", "PartialEq", "Eq"], vec!["impl_address_ops"]));
+        s.inventory_derives = vec!["GuestAddress", "MemoryRegionAddress"];
+        t.push(s);
+        // NewBitmap::with_len: AtomicBitmap::new(len, page size from sysconf), len unchanged
+        let mut s = base("AtomicBitmap", "AtomicBitmap", "src/bitmap/backend/atomic_bitmap.rs", "with_len", "with_len", Loc::Impl { ty: "AtomicBitmap", tr: Some("NewBitmap"), f: "with_len" });
+        s.type_params = vec!["R"];
+        s.extra = vec![ex("unsafe { libc :: sysconf (libc :: _SC_PAGE_SIZE) }", "sysconf_page_size", Ty::ISize)];
+        s.fns = vec![ofn("new", "bitmap_new", "N -> N -> R", Ty::Unknown)];
+        t.push(s);
+        // atomic_integer.rs impl_atomic_integer_ops!: load / store forward `order` unchanged
+        for (name, f) in [("atomic_load", "load"), ("atomic_store", "store")] {
+            let mut s = base("Atomic", "Atomic", "src/atomic_integer.rs", name, f,
+                             Loc::InMacro { mac: "impl_atomic_integer_ops", subst: vec![("T", "AtomT"), ("V", "u64")], inner: Box::new(Loc::Impl { ty: "AtomT", tr: Some("AtomicInteger"), f }) });
+            s.canon_params = if f == "store" { vec!["val", "order"] } else { vec!["order"] };
+            s.param_tys = vec![("order", Ty::Abs("ORD"))];
+            s.type_params = vec!["ORD", "R"];
+            s.fns = vec![ofn(f, "std_call", if f == "store" { "N -> ORD -> R" } else { "ORD -> R" }, Ty::Unknown)];
+            t.push(s);
+        }
+        // GuestMemoryRegion defaults: no host address / slice / file offset unless the implementor overrides; as_volatile_slice = get_slice(0, len)
+        for (name, f) in [("region_default_get_host_address", "get_host_address"), ("region_default_get_slice", "get_slice"),
+                          ("region_default_file_offset", "file_offset"), ("region_default_as_volatile_slice", "as_volatile_slice")] {
+            let mut s = base("Guest", "GuestRegionDefaults", gfile, name, f, Loc::Trait("GuestMemoryRegion", f));
+            s.type_params = vec!["R"];
+            s.extra = vec![ex("self . len ()", "len", Ty::Int(64))];
+            s.fns = vec![ofn("get_slice", "get_slice", "N -> N -> R", Ty::Unknown)];
+            s.annot = match f { "get_host_address" => Some("rres N"), "get_slice" => Some("rres R"), "file_offset" => Some("option N"), _ => None };
+            t.push(s);
+        }
+    }
     // ------------------------------------------------------------------ src/mmap/mod.rs
     {
         let mut s = base("Mmap", "Mmap", "src/mmap/mod.rs", "check_file_offset", "check_file_offset", Loc::Free("check_file_offset"));
@@ -990,6 +1183,78 @@ pub fn table() -> Vec<Spec> {
         s.skip = vec!["self . regions . clone ()", "regions . remove (region_index)"];
         t.push(s);
     }
+    {
+        // ---- w1c: region construction and the region-level Bytes<MemoryRegionAddress> delegation
+        let mfile = "src/mmap/mod.rs";
+        let abs = |n: &'static str| Ty::Abs(n);
+        let rabs = |n: &'static str| Ty::Res(Box::new(Ty::Abs(n)));
+        // GuestRegionMmap::from_range, both cfg variants: the mapping is built, then EVERYTHING goes through Self::new(region, addr)
+        let mut s = base("Mmap", "MmapCtor", mfile, "from_range_unix", "from_range", Loc::Impl { ty: "GuestRegionMmap", tr: None, f: "from_range" });
+        s.attr_filter = Some(("not (feature = \"xen\")", true));
+        s.canon_params = vec!["addr", "size", "file"];
+        s.param_tys = vec![("file", opt(abs("F")))];
+        s.type_params = vec!["F", "M", "R"];
+        s.id_methods = vec!["clone"];
+        s.fns = vec![ofn("from_file", "from_file", "F -> N -> rres M", rabs("M")), ofn("new", "region_new", "N -> rres M", rabs("M")),
+                     ofn("guest_region_new", "guest_region_new", "M -> N -> rres R", Ty::Res(Box::new(Ty::Abs("R"))))];
+        s.positions = vec![("let#0", "region")];
+        s.rewrite = vec![("Self :: new (region , addr)", "guest_region_new (region , addr)")];
+        t.push(s);
+        let mut s = base("Mmap", "MmapCtor", mfile, "from_range_xen", "from_range", Loc::Impl { ty: "GuestRegionMmap", tr: None, f: "from_range" });
+        s.attr_filter = Some(("not (feature = \"xen\")", false));
+        s.canon_params = vec!["addr", "size", "file"];
+        s.param_tys = vec![("file", abs("F"))];
+        s.type_params = vec!["F", "RNG", "M", "R"];
+        s.fns = vec![ofn("new_unix", "new_unix", "N -> F -> N -> RNG", abs("RNG")), ofn("from_range", "region_from_range", "RNG -> rres M", rabs("M")),
+                     ofn("guest_region_new", "guest_region_new", "M -> N -> rres R", Ty::Res(Box::new(Ty::Abs("R"))))];
+        s.positions = vec![("let#1", "region")];
+        s.rewrite = vec![("Self :: new (region , addr)", "guest_region_new (region , addr)")];
+        t.push(s);
+        // Bytes<MemoryRegionAddress> for GuestRegionMmap: as_volatile_slice().unwrap().<same method>(addr.0 as usize, ..)
+        // with the error converted and NOTHING else (a mark_dirty of its own would be an unknown call)
+        for (f, sel) in [("write", vec![1usize]), ("read", vec![1]), ("write_slice", vec![1]), ("read_slice", vec![1]),
+                         ("read_volatile_from", vec![0, 2]), ("read_exact_volatile_from", vec![0, 2]),
+                         ("write_volatile_to", vec![0, 2]), ("write_all_volatile_to", vec![0, 2])] {
+            let name: &'static str = Box::leak(format!("region_{}", f).into_boxed_str());
+            let mut s = base("Mmap", "RegionBytes", mfile, name, f, Loc::Impl { ty: "GuestRegionMmap", tr: Some("Bytes"), f });
+            s.canon_params = if sel.len() == 1 { vec!["buf", "addr"] } else { vec!["addr", "stream", "count"] };
+            s.drop_params = vec!["buf", "stream"];
+            s.type_params = vec!["VS", "R"];
+            s.extra = vec![ext("self . as_volatile_slice () . unwrap ()", "vs", "VS", abs("VS"))];
+            let cty: &'static str = if sel.len() == 1 { "VS -> N -> rres R" } else { "VS -> N -> N -> rres R" };
+            s.fns = vec![ofn(f, "slice_call", cty, rabs("R"))];
+            s.recv_arg = vec![f];
+            s.argsel = vec![(f, sel)];
+            t.push(s);
+        }
+        for (f, sel, canon) in [("store", vec![1usize, 2], vec!["val", "addr", "order"]), ("load", vec![0, 1], vec!["addr", "order"])] {
+            let name: &'static str = Box::leak(format!("region_{}", f).into_boxed_str());
+            let mut s = base("Mmap", "RegionBytes", mfile, name, f, Loc::Impl { ty: "GuestRegionMmap", tr: Some("Bytes"), f });
+            s.canon_params = canon;
+            s.drop_params = vec!["val"];
+            s.param_tys = vec![("order", abs("ORD"))];
+            s.type_params = vec!["VS", "ORD", "R"];
+            s.extra = vec![ext("self . as_volatile_slice ()", "vs_res", "rres VS", rabs("VS"))];
+            s.fns = vec![ofn(f, "slice_call", "VS -> N -> ORD -> rres R", rabs("R"))];
+            s.recv_arg = vec![f];
+            s.argsel = vec![(f, sel)];
+            s.closure_params = vec![("s", abs("VS"))];
+            t.push(s);
+        }
+    }
+    {
+        // w1c: insert_region re-validates the WHOLE vector: push, sort by start address, from_arc_regions
+        let mut s = base("Mmap", "GuestMemoryMmap", "src/mmap/mod.rs", "insert_region", "insert_region", Loc::Impl { ty: "GuestMemoryMmap", tr: None, f: "insert_region" });
+        s.canon_params = vec!["region"];
+        s.param_tys = vec![("region", Ty::Abs("RGN"))];
+        s.type_params = vec!["RGN", "R"];
+        s.skip = vec!["self . regions . clone ()"];
+        s.effects = vec!["push", "sort_by_key"];
+        s.effects_ret = true;
+        s.argsel = vec![("sort_by_key", vec![]), ("from_arc_regions", vec![])];
+        s.fns = vec![ofn("from_arc_regions", "from_arc_regions", "R", Ty::Unknown)];
+        t.push(s);
+    }
     // ------------------------------------------------------------------ src/mmap/unix.rs
     {
         let ufile = "src/mmap/unix.rs";
@@ -1012,6 +1277,26 @@ pub fn table() -> Vec<Spec> {
             ext("self . raw_ptr", "raw_ptr", "option N", opt(Ty::Ptr)),
         ];
         s.fields = vec!["addr", "owned"];
+        t.push(s);
+    }
+    {
+        // w1c: MmapRegion::get_slice (unix): pointer = base + offset, bitmap = slice_at(the SAME offset), no mapping handle
+        let mut s = base("MmapUnix", "MmapUnix", "src/mmap/unix.rs", "region_get_slice", "get_slice", Loc::Impl { ty: "MmapRegion", tr: Some("VolatileMemory"), f: "get_slice" });
+        s.type_params = vec!["BM", "E"];
+        s.extra = vec![ex("self . addr", "addr", Ty::Ptr)];
+        s.fns = vec![ofn("slice_at", "slice_at", "N -> BM", Ty::Abs("BM")), ofn("compute_end_offset", "compute_end_offset", "N -> N -> rres E", Ty::Res(Box::new(Ty::Abs("E"))))];
+        s.ctors = vec![("with_bitmap", vec![0, 2, 3])];
+        t.push(s);
+    }
+    {
+        // w1c: MmapRegionBuilder::build: the mmap(2) call gets exactly self.size, self.prot, self.flags
+        let mut s = base("MmapUnix", "MmapUnix", "src/mmap/unix.rs", "build_mmap_args", "build", Loc::Impl { ty: "MmapRegionBuilder", tr: None, f: "build" });
+        s.type_params = vec!["R"];
+        s.from = Some("unsafe { libc :: mmap");
+        s.locals = Some(vec!["addr"]);
+        s.extra = vec![ex("self . size", "size", Ty::Int(64)), ex("self . prot", "prot", Ty::Int(32)), ex("self . flags", "flags", Ty::Int(32))];
+        s.fns = vec![ofn("mmap", "mmap_call", "N -> N -> N -> R", Ty::Unknown)];
+        s.argsel = vec![("mmap", vec![1, 2, 3])];
         t.push(s);
     }
     // ------------------------------------------------------------------ src/mmap/xen.rs
@@ -1069,6 +1354,43 @@ pub fn table() -> Vec<Spec> {
         s.consts = vec![("XEN_GRANT_ADDR_OFF".to_string(), "9223372036854775808".to_string(), Ty::Int(64))];
         s.locals = Some(vec!["base"]);
         s.positions = vec![("let#0", "base")];
+        t.push(s);
+    }
+    {
+        // w1c: MmapRegion::get_slice (xen): as above, and the handle is Some(&self.mmap) exactly when the region is not mapped in advance
+        let mut s = base("Xen", "Xen", xfile, "region_get_slice", "get_slice", Loc::Impl { ty: "MmapRegion", tr: Some("VolatileMemory"), f: "get_slice" });
+        s.type_params = vec!["BM", "E"];
+        s.extra = vec![ex("self . as_ptr ()", "addr", Ty::Ptr), ex("self . mmap . mmap_in_advance ()", "in_advance", Ty::Bool), ex("self . mmap", "the_mmap", Ty::Unit)];
+        s.fns = vec![ofn("slice_at", "slice_at", "N -> BM", Ty::Abs("BM")), ofn("compute_end_offset", "compute_end_offset", "N -> N -> rres E", Ty::Res(Box::new(Ty::Abs("E"))))];
+        s.ctors = vec![("with_bitmap", vec![0, 2, 3])];
+        s.positions = vec![("let#1", "mmap_info")];
+        t.push(s);
+    }
+    {
+        // w1c: MmapRange::new_unix flags (file: NORESERVE|SHARED, anonymous: ANONYMOUS|PRIVATE), GntDevMapGrantRef::new loop body
+        // (ref i: the same domid, reference base + i), MmapRegion::from_range: size / file offset / hugetlbfs hint passed on
+        let mut s = base("Xen", "Xen", xfile, "new_unix_flags", "new_unix", Loc::Impl { ty: "MmapRange", tr: None, f: "new_unix" });
+        s.canon_params = vec!["size", "file_offset", "addr"];
+        s.param_tys = vec![("file_offset", opt(Ty::Abs("F")))];
+        s.type_params = vec!["F"];
+        s.consts = vec![("libc :: MAP_NORESERVE".to_string(), "16384".to_string(), Ty::Int(32)), ("libc :: MAP_SHARED".to_string(), "1".to_string(), Ty::Int(32)),
+                        ("libc :: MAP_ANONYMOUS".to_string(), "32".to_string(), Ty::Int(32)), ("libc :: MAP_PRIVATE".to_string(), "2".to_string(), Ty::Int(32))];
+        s.fields = vec!["flags", "mmap_data", "size", "addr"];
+        t.push(s);
+        let mut s = base("Xen", "Xen", xfile, "grant_refs_body", "new", Loc::Impl { ty: "GntDevMapGrantRef", tr: None, f: "new" });
+        s.loop_idx = Some(0);
+        s.vars = vec![("i", Ty::Int(64)), ("r", Ty::Unit)];
+        s.state = vec![ex("r . domid", "r_domid", Ty::Int(32)), ex("r . reference", "r_reference", Ty::Int(32))];
+        s.step = Some(("N * N", "unit"));
+        t.push(s);
+        let mut s = base("Xen", "Xen", xfile, "from_range_fields", "from_range", Loc::Impl { ty: "MmapRegion", tr: None, f: "from_range" });
+        s.canon_params = vec!["range"];
+        s.drop_params = vec!["range"];
+        s.type_params = vec!["FO"];
+        s.from = Some("Ok (MmapRegion");
+        s.extra = vec![ext("range . hugetlbfs", "huge", "option bool", opt(Ty::Bool)), ex("range . size", "size", Ty::Int(64)), ext("range . file_offset", "fo", "FO", Ty::Abs("FO"))];
+        s.fields = vec!["hugetlbfs", "size", "file_offset"];
+        s.annot = Some("rres (FO * option bool * N)");
         t.push(s);
     }
     // ------------------------------------------------------------------ src/endian.rs
